@@ -290,6 +290,13 @@ func propC19(w *World, r *Report) {
 		fn := ri.methods["Move"]
 		pis, complete := analyse(fn)
 		r.Check(complete && len(pis) == 4, "Q6", "Move: loop-free, four paths (wrap?, mark expired?)", w.Pos(fn.Pos()), fmt.Sprint(len(pis)))
+		sawExpire := false
+		for _, pi := range pis {
+			if pi.stores[ri.fOLD] == "-1" {
+				sawExpire = true
+			}
+		}
+		r.Check(sawExpire, "Q3", "Move: the mark expires on some path (when the advanced position reaches it)", w.Pos(fn.Pos()), "")
 		for _, pi := range pis {
 			wrap := containsStr(pi.conds, "eq(0, "+CUR+")")
 			expire := containsStr(pi.conds, eqStr(CUR, OLD))
